@@ -64,6 +64,22 @@ def check_rle_conformance(rep, tier, rng, drv, run):
             lines.append("rle_lvl %d %d %s" % (w, n, vlib.hexs(data))); meta.append(("lvl", w, runs, n))
             pre = len(data).to_bytes(4, "little") + data + bytes(rng.getrandbits(8) for _ in range(rng.randrange(0, 4)))
             lines.append("rle_lvlp %d %d %s" % (w, n, vlib.hexs(pre))); meta.append(("lvlp", w, runs, n, len(data)))
+    # run headers of 4 and 5 varint bytes (counts >= 2^20 and >= 2^27): implementation-side only (the extracted
+    # model is not run on million-element outputs)
+    big = []
+    for w in (1, 3, 8):
+        top = (1 << w) - 1
+        for cnt in ((1 << 20) - 1, 1 << 20, (1 << 20) + 1):
+            runs = [("L", [rng.randint(0, top) for _ in range(8)]), ("R", cnt, top), ("R", 3, 0)]
+            big.append((w, runs, cnt + 8 + 3))
+        runs = [("R", (1 << 27) + 3, top), ("R", 5, 1 & top)]
+        big.append((w, runs, 100))
+    for w, runs, n in big[: (4 if tier == "quick" else len(big))] + big[-1:]:
+        data = rle_ref.enc_runs(w, runs)
+        lines.append("rle_dec %d %d %s" % (w, n, vlib.hexs(data))); meta.append(("decbig", w, runs, n))
+        lines.append("rle_lvl %d %d %s" % (w, n, vlib.hexs(data))); meta.append(("lvl", w, runs, n))
+        pre = len(data).to_bytes(4, "little") + data
+        lines.append("rle_lvlp %d %d %s" % (w, n, vlib.hexs(pre))); meta.append(("lvlp", w, runs, n, len(data)))
     impl, p1 = run_sharded(drv, lines)
     for pr in p1:
         rep.violation("RLE entry point crashed / sanitizer report: %s" % pr[2][-500:], {"case": pr[3]})
@@ -80,7 +96,7 @@ def check_rle_conformance(rep, tier, rng, drv, run):
     for pr in p2:
         rep.tie_broken("model runner died: %s" % pr[2][-300:], pr[3])
     mres = {id(x[1]): y for x, y in zip(mmeta, model)}
-    dist = {"enc": 0, "dec": 0, "lvl": 0, "lvlp": 0}
+    dist = {"enc": 0, "dec": 0, "lvl": 0, "lvlp": 0, "decbig": 0}
     for li, m, a in zip(lines, meta, impl):
         rep.count(li, nontrivial=len(li) > 16)
         dist[m[0]] += 1
@@ -104,10 +120,10 @@ def check_rle_conformance(rep, tier, rng, drv, run):
             w, runs, n = m[1], m[2], m[3]
             full = rle_ref.runs_vals(runs)
             want = full[:n]
-            if m[0] == "dec":
+            if m[0] in ("dec", "decbig"):
                 if a != "OK " + vals_str(want):
                     rep.violation("carquet_rle_decode_all does not return the values a legal hybrid stream denotes (width %d): %s want %s"
-                                  % (w, a[:120], vals_str(want)[:120]), {"case": li, "impl": a, "expected": vals_str(want)})
+                                  % (w, a[:120], vals_str(want)[:120]), {"case": li, "impl": a[:2000], "expected": vals_str(want)[:2000]})
                 else:
                     md = mres.get(id(m))
                     if md is not None and md != a:
@@ -115,12 +131,12 @@ def check_rle_conformance(rep, tier, rng, drv, run):
             elif m[0] == "lvl":
                 if a != "OK " + vals_str(want):
                     rep.violation("carquet_rle_decode_levels does not return the values a legal hybrid stream denotes (width %d): %s want %s"
-                                  % (w, a[:120], vals_str(want)[:120]), {"case": li, "impl": a, "expected": vals_str(want)})
+                                  % (w, a[:120], vals_str(want)[:120]), {"case": li, "impl": a[:2000], "expected": vals_str(want)[:2000]})
             else:
                 exp = "OK %s %d" % (vals_str(want), 4 + m[4])
                 if a != exp:
                     rep.violation("carquet_rle_decode_levels_prefixed: values or bytes_consumed wrong: %s want %s" % (a[:120], exp[:120]),
-                                  {"case": li, "impl": a, "expected": exp})
+                                  {"case": li, "impl": a[:2000], "expected": exp[:2000]})
     rep.cov.setdefault("input_distribution", {}).update({"rle_" + k: v for k, v in dist.items()})
     rep.sample({"op": "reference-encoded stream -> carquet", "case": next(l for l, m in zip(lines, meta) if m[0] == "dec")[:200]})
     rep.sample({"op": "carquet-encoded -> spec decoder", "case": lines[3][:200]})
@@ -176,5 +192,6 @@ def replay(path):
         print(err[-2000:])
     exp = j["replay"].get("expected")
     if exp is not None and out:
-        return 0 if out[0] in (exp, "OK " + exp) else 1
+        o = out[0]
+        return 0 if (o in (exp, "OK " + exp) or o[:2000] in (exp, ("OK " + exp)[:2000]) or ("OK " + exp).startswith(o[:1900])) else 1
     return 1
